@@ -11,6 +11,7 @@ import SshuttleModel.Lemmas.ArgsEnv
 import SshuttleModel.Lemmas.ArgsPins
 import SshuttleModel.Lemmas.ArgsIpport
 import SshuttleModel.Lemmas.ArgsAscii
+import SshuttleModel.Lemmas.ArgsFile
 
 namespace Sshuttle.ArgsSpec
 open Sshuttle.Inet Sshuttle.Args
@@ -89,6 +90,55 @@ theorem C16_v6_spellings_partial :
     parseSubnetport envNone "1:2::3:456-500".toList = .ok [⟨.inet6, "1:2::3".toList, 128, 456, 500⟩] ∧
     parseSubnetport envNone "fc00::/129".toList = .error (.fatal .cidrRange) := by
   refine ⟨?_, ?_, ?_, ?_, ?_, ?_, ?_, ?_, ?_, ?_⟩ <;> decide +kernel
+
+/-! ## 1c. Subnet files (`-s`, `-X`: `parse_subnetport_file`) -/
+
+/-- **Every line of a subnet file is parsed on its own.**  A line that is neither blank nor a
+`#` comment contributes exactly what `parse_subnetport` makes of its stripped text, in file
+order and independently of every other line (no merging, no de-duplication); a failing later
+line fails the file. -/
+theorem C16_subnet_file_line (env : Env) (l : Str) (rest : List Str) (v : List Subnet)
+    (hne : (strip l).isEmpty = false) (hc : (strip l).head? ≠ some '#')
+    (hv : parseSubnetport env (strip l) = .ok v) :
+    fileLoop env (l :: rest) =
+      (match fileLoop env rest with
+       | .error e => .error e
+       | .ok tl => .ok (v :: tl)) :=
+  fileLoop_line env l rest v hne hc hv
+
+example : (strip " 1.2.3.4:80 \t".toList).isEmpty = false ∧ (strip " 1.2.3.4:80 \t".toList).head? ≠ some '#' ∧
+    parseSubnetport envNone (strip " 1.2.3.4:80 \t".toList) = .ok [⟨.inet, "1.2.3.4".toList, 32, 80, 80⟩] := by
+  refine ⟨?_, ?_, ?_⟩ <;> decide +kernel
+
+/-- Blank lines and comment lines contribute nothing. -/
+theorem C16_subnet_file_skip (env : Env) (l : Str) (rest : List Str)
+    (h : (strip l).isEmpty = true ∨ (strip l).head? = some '#') :
+    fileLoop env (l :: rest) = fileLoop env rest :=
+  fileLoop_skip env l rest h
+
+example : (strip "  # 10.0.0.0/8".toList).isEmpty = true ∨ (strip "  # 10.0.0.0/8".toList).head? = some '#' :=
+  Or.inr (by decide +kernel)
+
+/-- **A file of documented IPv4 entries yields every entry, each with its own ports** — for every
+list of entries (any address, spelling, width ≤ 32 or none, port / range / none), in particular
+for entries that share address and width and differ only in the port range: the result is the
+list of their denotations, one per line, in order. -/
+theorem C16_subnet_file_v4 (env : Env) (es : List Entry4) (h : ∀ e ∈ es, e.Valid) :
+    fileLoop env (es.map Entry4.text) = .ok (es.map fun e => [denotes4 e.a e.w e.ps]) :=
+  fileLoop_entries env es h
+
+example : ∀ e ∈ [(⟨0x0a010000, .p4 .dec .dec .dec .dec, some 16, .one 80⟩ : Entry4),
+    ⟨0x0a010000, .p4 .dec .dec .dec .dec, some 16, .one 443⟩], e.Valid := by
+  intro e he
+  simp only [List.mem_cons, List.not_mem_nil, or_false] at he
+  rcases he with rfl | rfl <;>
+    exact ⟨by decide, fun x hx => by injection hx with hx; omega, (by decide : _ < 65536)⟩
+
+/-- the seeded-change witness as an instance: both lines of `10.1.0.0/16:80`, `10.1.0.0/16:443` -/
+theorem C16_subnet_file_instance :
+    parseSubnetportFile envNone "10.1.0.0/16:80\n10.1.0.0/16:443\n# c\n\n".toList =
+      .ok [[⟨.inet, "10.1.0.0".toList, 16, 80, 80⟩], [⟨.inet, "10.1.0.0".toList, 16, 443, 443⟩]] := by
+  decide +kernel
 
 /-! ## 2. Widths outside the family's range -/
 
@@ -184,6 +234,23 @@ theorem C16_env_override_cmdline_wins (dest : String) (envArgs pre post : List (
   simp [precedence, this]
 
 example : lastOf "--remote" [("--python", ['p', 'y'])] = none := by decide
+
+/-- **`--listen` from the environment is replaced, not merged.**  The listeners handed on are
+those of the *last* `--listen` occurrence alone — command line after environment — so an
+address family named only in an earlier (environment) occurrence does not survive. -/
+theorem C16_listen_env (env : Env) (envArgs argv : List (String × Str)) :
+    listenAfterMerge env envArgs argv = (precedence "--listen" envArgs argv).map (parseListen env) := by
+  have h := C16_env_override "--listen" envArgs argv
+  unfold storeValue at h
+  unfold listenAfterMerge
+  rw [h]
+
+/-- instance (the seeded-change witness): `SSHUTTLE_ARGS='-l [::1]:12300'` with
+`-l 127.0.0.1:12345` on the command line gives an IPv4 listener only. -/
+theorem C16_listen_env_instance :
+    listenAfterMerge envNone [("--listen", "[::1]:12300".toList)] [("--listen", "127.0.0.1:12345".toList)] =
+      some (.ok (none, some ("127.0.0.1".toList, 12345))) := by
+  decide +kernel
 
 /-! ## 5. Listen and remote-host specifications -/
 
